@@ -28,6 +28,10 @@ def run(ctx):
     cprogs = F.in_contexts(progs, per, rnd)
     agg = run_family("C07ctx", cprogs, NAMES + ["z", "macroname"], dev=dev, invariants=INVS, perms=(0,), timeout=3000)
     ctx.add_family(agg)
+    # the same elements with other statements beside tal:attributes, written as data-tal-* attributes (several per element)
+    f1 = [p for p in F.c01_f1("quick") if "attrs" in p["fam"]]
+    agg = run_family("C07data", rnd.sample(f1, 24 if quick else len(f1)), NAMES, dev=dev, invariants=INVS, perms=(300, 301), timeout=3000)
+    ctx.add_family(agg)
     for f in ctx.known():
         ctx.witness(f)
     ctx.exhaustive = True
